@@ -349,6 +349,8 @@ func (r *router) Routes(routePath, methods string, handlers ...Handler) *Route {
 }
 
 func (r *router) NotFound(handlers ...Handler) {
+	// Keep an own copy: the caller's slice is neither wrapped in place nor retained.
+	handlers = append([]Handler(nil), handlers...)
 	validateAndWrapHandlers(handlers, r.handlerWrapper)
 	r.notFound = func(w http.ResponseWriter, req *http.Request) {
 		r.contextCreator(w, req, nil, handlers, r.URLPath).run()
